@@ -537,6 +537,8 @@ func C06(p *core.Program, r *core.Report) {
 	checkNarrowCounter(p, r, fwd, incCalls)
 
 	checkRemovalLoops(p, r)
+	// the blocks this node adds on the way (previous node, routing metadata) get a number no other block has
+	checkFreeNumberSearch(p, r)
 
 	// the reception time is write-once: the age a bundle leaves with is the age
 	// stored with the (immutable) bundle file plus now-Timestamp; Timestamp is
